@@ -44,6 +44,7 @@ pub const WPROBES: &[&str] = &[
     "longest_rendering_i128_or_u128",
     "roundtrip_executed",
     "macro_path_used",
+    "sink_write_vectored_called",
     "all_12_int_types_at_boundary",
 ];
 
@@ -472,6 +473,7 @@ impl Acc {
         if co.roundtrip_values > 0 {
             p.hit(wprobe("roundtrip_executed"));
         }
+        p.add(wprobe("sink_write_vectored_called"), l.vectored_calls as u64);
 
         // interleaving digest: (operation kind, fill level when it started, length) sequence
         // plus the beginning of the sink's call pattern
@@ -531,10 +533,36 @@ fn sweep_case(case: u64, buf: usize, depth: u64) -> Option<WRecord> {
         let v = Val::Int(v);
         return Some(WRecord { script: vec![fill, WOp::Int(v.clone()), WOp::Char(b' '), WOp::Int(v), WOp::Char(b'\n')], trace, readback: None });
     }
+    // every digit count of the 64- and 128-bit types, smallest and largest value of that length,
+    // both signs: a size estimate that is short for ONE rendering length (or one bit length: the
+    // smallest d-digit number 10^(d-1) sits right above a power of two for some d) only shows
+    // at the fill level that leaves exactly that many bytes
+    let rest = rest - n_int;
+    let wide: [(IntTy, u32); 6] = [(IntTy::U128, 39), (IntTy::I128, 39), (IntTy::U64, 20), (IntTy::I64, 19), (IntTy::Usize, 20), (IntTy::Isize, 19)];
+    let n_wide: u64 = wide.iter().map(|(t, d)| *d as u64 * if t.signed() { 4 } else { 2 }).sum();
+    if rest < n_wide {
+        let mut r = rest;
+        for (ty, digits) in wide {
+            let per = if ty.signed() { 4 } else { 2 };
+            let block = digits as u64 * per;
+            if r < block {
+                let d = (r / per) as u32 + 1; // digit count 1..=digits
+                let which = r % per;
+                let lo = 10u128.pow(d - 1);
+                let hi = if d == 39 { u128::MAX } else { 10u128.pow(d) - 1 };
+                let neg = ty.signed() && which >= 2;
+                let lim = if neg { ty.min_mag() } else { ty.max_mag() };
+                let mag = (if which % 2 == 0 { lo } else { hi }).min(lim);
+                let v = Val::Int(IntVal { ty, neg: neg && mag != 0, mag });
+                return Some(WRecord { script: vec![fill, WOp::Int(v.clone()), WOp::Char(b' '), WOp::Int(v)], trace, readback: None });
+            }
+            r -= block;
+        }
+    }
     if depth == 0 {
         return None;
     }
-    let rest = rest - n_int;
+    let rest = rest - n_wide;
     if rest < 64 {
         // string of every length 0..=63, then a second one
         let len = rest as usize;
@@ -563,7 +591,8 @@ fn sweep_case(case: u64, buf: usize, depth: u64) -> Option<WRecord> {
 }
 
 fn sweep_size(depth: u64) -> u64 {
-    let per_level = if depth == 0 { 48 } else { 48 + 64 + TUPLES.len() as u64 + 12 };
+    let wide = 2 * 39 + 4 * 39 + 2 * 20 + 4 * 19 + 2 * 20 + 4 * 19;
+    let per_level = if depth == 0 { 48 + wide } else { 48 + wide + 64 + TUPLES.len() as u64 + 12 };
     46 * 2 * per_level
 }
 
